@@ -2,6 +2,7 @@
   C06 — Integrity of signed material (partial: the cryptographic residue is stated as hypotheses).
 -/
 import Props.C03
+import Proofs.Attestation
 namespace Webauthn.Props.C06
 open Webauthn Generated Webauthn.Props.C03
 
@@ -58,5 +59,70 @@ data bytes (packed, android-key: signature; tpm: extraData; apple, safetynet: no
 fido-u2f: rpIdHash, credential id and key taken from authenticator data). -/
 theorem binding_registration {W : World} {c : RegCred} {e : RegExpect} {r : VerifiedReg}
     (h : runM W (verifyReg c e) = .ok r) : RegFormatRules W c e r := registration h
+
+/-- a signature value is valid for at most one message, whatever the key and scheme (no key-substitution:
+idealisation, hypothesis) -/
+def SigBinds (W : World) : Prop :=
+  ∀ pk s pk' s' sig data data', W.sigVerify pk s sig data = .valid → W.sigVerify pk' s' sig data' = .valid → data = data'
+
+theorem authData_of_raw {val : Bytes} {ao : AttObj} {ad : Bytes} (h : parseAttObj val = .ok ao)
+    (hraw : ao.authDataRaw = .bytes ad) : parseAuthData ad = .ok ao.authData := by
+  obtain ⟨kvs, adBytes, _, _, _, hb, hp, _⟩ := parseAttObj_ok h
+  rw [hraw] at hb
+  have : adBytes = ad := by
+    simp [authDataBytesOf] at hb
+    exact hb.symm
+  rw [← this]; exact hp
+
+/-- packed self-attestation: of two accepted registrations under the same expectations, (i) if the signature
+member is the same, authenticator data and client data are the same; (ii) if authenticator data, client data and
+the statement's alg are the same, the signature is the same. Hence changing one bit of exactly one of them
+makes the response be rejected. Under the named idealisations. -/
+theorem bitflip_reg_packed_self {W : World} {c c' : RegCred} {e : RegExpect} {r r' : VerifiedReg} {ao ao' : AttObj}
+    (h : runM W (verifyReg c e) = .ok r) (h' : runM W (verifyReg c' e) = .ok r')
+    (hf : r.fmt = "packed") (hf' : r'.fmt = "packed")
+    (hao : parseAttObj c.attestationObject = .ok ao) (hao' : parseAttObj c'.attestationObject = .ok ao')
+    (hs : cborTruthy ao.attStmt.x5c = false) (hs' : cborTruthy ao'.attStmt.x5c = false)
+    (hbind : SigBinds W) (huniq : ∀ pk s, UniqueSig W pk s) (hlen : HashLen32 W)
+    (hcol : NoCollision W c.clientDataJSON c'.clientDataJSON) :
+    (ao'.attStmt.sig = ao.attStmt.sig → ao'.authDataRaw = ao.authDataRaw ∧ c'.clientDataJSON = c.clientDataJSON) ∧
+    (ao'.authDataRaw = ao.authDataRaw → c'.clientDataJSON = c.clientDataJSON → ao'.attStmt.alg = ao.attStmt.alg →
+      ao'.attStmt.sig = ao.attStmt.sig) := by
+  obtain ⟨ao1, att, roots, hao1, hatt, _, hk, _, _, hp, _⟩ := (registration h).rules
+  obtain ⟨ao2, att', roots', hao2, hatt', _, hk', _, _, hp', _⟩ := (registration h').rules
+  rw [hao] at hao1; cases hao1
+  rw [hao'] at hao2; cases hao2
+  obtain ⟨ad, key, pk, alg, hraw, halg, _, hkey, _, hpk, _, s, b, hplan, hsig, hv⟩ := ((hp hf).2 hs).rules
+  obtain ⟨ad', key', pk', alg', hraw', halg', _, hkey', _, hpk', _, s', b', hplan', hsig', hv'⟩ := ((hp' hf').2 hs').rules
+  constructor
+  · intro hsame
+    rw [hsig, hsig'] at hsame
+    have hb : b' = b := by cases hsame; rfl
+    subst hb
+    have hdata := hbind _ _ _ _ _ _ _ hv hv'
+    obtain ⟨had, hhash⟩ := append_inj_right_len hdata (by rw [hlen, hlen])
+    exact ⟨by rw [hraw, hraw', had], (hcol hhash).symm⟩
+  · intro hadEq hcdj halgEq
+    rw [hraw, hraw'] at hadEq
+    have had : ad' = ad := by cases hadEq; rfl
+    subst had
+    -- same authenticator data, so the same attested key
+    have e1 := authData_of_raw hao hraw
+    have e2 := authData_of_raw hao' hraw'
+    rw [e1] at e2
+    have hadEq2 : ao.authData = ao'.authData := Except.ok.inj e2
+    have hattEq : att = att' := by
+      rw [hadEq2, hatt'] at hatt; exact (Option.some.inj hatt).symm
+    subst hattEq
+    rw [hk] at hkey; rw [hk'] at hkey'
+    rw [hkey] at hkey'; cases hkey'
+    rw [hpk] at hpk'; cases hpk'
+    rw [halg, halg'] at halgEq
+    have : alg' = alg := by cases halgEq; rfl
+    subst this
+    rw [hplan] at hplan'; cases hplan'
+    rw [hcdj] at hv'
+    obtain ⟨hbb, _⟩ := huniq pk s _ _ _ _ hv hv'
+    rw [hsig, hsig', hbb]
 
 end Webauthn.Props.C06
